@@ -14,7 +14,8 @@ from ..core import Check
 from ..oracle_l1d import C01Oracle, check_combined, check_reported_loss
 
 THEOREMS = {n: "Props.C01" for n in [
-    "C01_structure_inv", "C01_values_inv", "C01_reported_loss", "C01_combined_interp", "C01_loss_is_max", "C01_sweep_resets_all", "C01_discard_resets", "C01_example"]}
+    "C01_structure_inv", "C01_values_inv", "C01_reported_loss", "C01_combined_interp", "C01_loss_is_max", "C01_sweep_resets_all", "C01_discard_resets", "C01_example",
+    "C01_scale_bracket", "C01_factor1_exact", "C01_scale_bracket_vec", "C01_factor1_exact_vec", "C01_bracket_example", "C01_bracket_example_vec"]}
 
 
 def gen_cfg(rng, quick=True):
